@@ -1,4 +1,5 @@
 import Cutadapt.Proofs.StepsReport
+import Cutadapt.Proofs.StepsShape
 /-! # C04 — each read is written once or counted as filtered once; totals add up
 
 Model: `Cutadapt.Pipeline` (`stepS`, `stepP`, `runStepsS/P`, `processReadS/P`, `runSingle/runPaired`),
@@ -48,6 +49,23 @@ theorem each_pair_one_fate {a1 a2 : List Matchable} {steps : List Step} {idx : N
   obtain ⟨pre, last, rfl, hp, hl⟩ := ht
   obtain ⟨texts, tail, rfl, htx, htl⟩ := runStepsP_terminal hp hl h
   exact ⟨texts ++ tail, by simp, fate_of_tail htx htl⟩
+
+/-! ## `make_pipeline_from_args` builds terminal step lists -/
+
+/-- every successfully assembled step list is terminal … -/
+theorem makeSteps_terminal {o : Opts} {n1 n2 : List String} {steps : List Step} {f : Files}
+    (h : makeSteps o n1 n2 = .ok (steps, f)) : Terminal steps :=
+  makeSteps_terminal' h
+
+/-- … its filter identifiers are pairwise distinct (so `Statistics.collect` overwrites nothing) … -/
+theorem filterIdents_nodup {o : Opts} {n1 n2 : List String} {steps : List Step} {f : Files}
+    (h : makeSteps o n1 n2 = .ok (steps, f)) : (steps.filterMap Step.filterIdent).Nodup :=
+  makeSteps_idents_nodup h
+
+/-- … and the redirect files of its filters are writers of their own, opened before those of the last step. -/
+theorem redirects_apart {o : Opts} {n1 n2 : List String} {steps : List Step} {f : Files}
+    (h : makeSteps o n1 n2 = .ok (steps, f)) : RedirectsApart steps :=
+  makeSteps_redirects_apart h
 
 /-- a concrete pipeline tail: `-m 3 --too-short-output`, `--max-n 0`, then the sink -/
 def exSteps : List Step :=
@@ -194,6 +212,33 @@ theorem report_adds_up_paired {p : PairedPipeline} {reads : List (Read × Read)}
     fun r e he => by obtain ⟨r', _, _, _, _, hl⟩ := processReadP_log ht he; exact ⟨r'.1, some r'.2, hl⟩
   rw [collectFiltered_sum p.steps evs hnd (fun k hk => run_filtered_idx hlog h hk)]
   exact (counts_of_logs hlog h).2.1
+
+/-- End to end, single-end: for the pipeline that `makeSingle` assembles from the options, an error-free run reports
+    input = written + Σ categories, input = number of reads, and written = the records in the output files of the last step. -/
+theorem cli_counts_single {o : Opts} {ads : List Matchable} {p : SinglePipeline} {f : Files} {reads : List Read}
+    {evs : List Event} (hp : makeSingle o ads = .ok (p, f)) (h : runSingle p reads = (evs, none)) :
+    (summarize evs).n = reads.length ∧
+    (summarize evs).n = (summarize evs).written + ((collectFiltered p.steps (summarize evs)).map (·.2)).sum ∧
+    (summarize evs).written = (recordsTo (lastWriters p.steps) evs).length ∧
+    (summarize evs).writtenBp1 = ((recordsTo (lastWriters p.steps) evs).map (·.1.len)).sum := by
+  have hs := (makeSingle_steps hp).1
+  have hc := counts_add_up_single (makeSteps_terminal hs) h
+  have hw := hc.2.2.2.2.2 (redirects_apart hs)
+  exact ⟨hc.1, report_adds_up_single (makeSteps_terminal hs) (filterIdents_nodup hs) h, hw.1, hw.2.1⟩
+
+/-- End to end, paired-end. -/
+theorem cli_counts_paired {o : Opts} {ads1 ads2 : List Matchable} {p : PairedPipeline} {f : Files}
+    {reads : List (Read × Read)} {evs : List Event} (hp : makePaired o ads1 ads2 = .ok (p, f))
+    (h : runPaired p reads = (evs, none)) :
+    (summarize evs).n = reads.length ∧
+    (summarize evs).n = (summarize evs).written + ((collectFiltered p.steps (summarize evs)).map (·.2)).sum ∧
+    (summarize evs).written = (recordsTo (lastWriters p.steps) evs).length ∧
+    (summarize evs).writtenBp1 = ((recordsTo (lastWriters p.steps) evs).map (·.1.len)).sum ∧
+    (summarize evs).writtenBp2 = ((recordsTo (lastWriters p.steps) evs).map (fun x => (x.2.map Read.len).getD 0)).sum := by
+  have hs := (makePaired_steps hp).1
+  have hc := counts_add_up_paired (makeSteps_terminal hs) h
+  have hw := hc.2.2.2.2.2 (redirects_apart hs)
+  exact ⟨hc.1, report_adds_up_paired (makeSteps_terminal hs) (filterIdents_nodup hs) h, hw.1, hw.2.1, hw.2.2⟩
 
 /-- Without distinct identifiers the report loses reads: two steps named "discard_untrimmed" (the model's
     `collectFiltered` keeps the later one, as `Statistics.collect` does). -/
